@@ -41,6 +41,11 @@ func TestC18(t *testing.T) {
 		RaceLogs:   true,
 		RaceFrames: []string{"lightning-node-connect/gbn"},
 		Run:        runC18,
+		Finish: func(sh *mon.Shard) {
+			if eng.AnyFrozen.Load() {
+				mon.FlushAndExit(sh)
+			}
+		},
 	})
 }
 
@@ -259,7 +264,26 @@ func runC18Scenario(c *mon.Case) {
 		wg.Wait()
 	}
 
-	r := eng.RunScen(c.T, sc, eng.Hooks{During: during, WaitDuring: true, OnLeak: leakHookInconc(c, sc)})
+	r, frozen := eng.RunScenGuarded(c.T, sc, eng.Hooks{During: during, WaitDuring: true, OnLeak: leakHookInconc(c, sc)}, 90*time.Second)
+	if frozen {
+		// a lock-order deadlock freezes a bubble, but so does a harmless
+		// mutex held across a timed wait: repeat on the real clock and
+		// apply the two-census rule
+		stuck := eng.DeadlockProbe(sc, eng.Hooks{During: during, WaitDuring: true}, 40*time.Second)
+		if len(stuck) > 0 {
+			var st []string
+			for _, g := range stuck {
+				st = append(st, g.Stack)
+			}
+			c.Shard.Violate("deadlock|scenario",
+				fmt.Sprintf("%d goroutine(s) of gbn have been waiting for a mutex for more than 5 s of real time while the API was used concurrently (first in %s) [%s]", len(stuck), stuck[0].TopFrame(), conf.String()),
+				map[string]any{"stacks": st})
+		} else {
+			c.Shard.Inconc(fmt.Sprintf("case %d: the bubble froze and the real-time repetition showed no deadlock", c.Idx))
+		}
+		c.Shard.Eval("")
+		return
+	}
 	if r.ConnErrC != nil || r.ConnErrS != nil {
 		c.Shard.Inconc(fmt.Sprintf("handshake failed: %v / %v", r.ConnErrC, r.ConnErrS))
 		return
